@@ -1,0 +1,197 @@
+//go:build verif
+
+// C01/C08 contracts: client-side proof verifiers (owner: con-c01). verifAssume / verifAssert are defined in
+// zz_verif_contracts.go.
+package store
+
+import (
+	"crypto/sha256"
+
+	"github.com/codenotary/immudb/embedded/ahtree"
+	"github.com/codenotary/immudb/embedded/htree"
+)
+
+var _ = htree.VerifyInclusion
+
+// spec_alhpre: the 72-byte preimage of an accumulated linear hash: be64(txID) || previous Alh || inner hash.
+func spec_alhpre(alh [sha256.Size]byte, txID uint64, term [sha256.Size]byte) [txIDSize + 2*sha256.Size]byte {
+	var b [txIDSize + 2*sha256.Size]byte
+	b[0] = byte(txID >> 56)
+	b[1] = byte(txID >> 48)
+	b[2] = byte(txID >> 40)
+	b[3] = byte(txID >> 32)
+	b[4] = byte(txID >> 24)
+	b[5] = byte(txID >> 16)
+	b[6] = byte(txID >> 8)
+	b[7] = byte(txID)
+	copy(b[8:], alh[:])
+	copy(b[40:], term[:])
+	return b
+}
+
+// spec_leafpre: the 33-byte preimage of a leaf of the main Merkle tree: LeafPrefix (0x00) || Alh.
+func spec_leafpre(d [sha256.Size]byte) [1 + sha256.Size]byte {
+	var b [1 + sha256.Size]byte
+	b[0] = 0
+	copy(b[1:], d[:])
+	return b
+}
+
+//@ func advanceLinearHash
+//@   pure
+//@   assigns nothing
+//@   ensures layout: result == sha(spec_alhpre(alh, txID, term))
+
+//@ func leafFor
+//@   pure
+//@   assigns nothing
+//@   ensures layout: result == sha(spec_leafpre(d))
+
+// spec_linfold is the reference linear chain: the Alh reached from t[0] (the Alh of transaction src) after
+// consuming the k inner hashes t[1..k] of transactions src+1 .. src+k.
+func spec_linfold(t [][sha256.Size]byte, src uint64, k int) [sha256.Size]byte {
+	if k <= 0 {
+		return t[0]
+	}
+	return advanceLinearHash(spec_linfold(t, src, k-1), src+uint64(k), t[k])
+}
+
+//@ func VerifyLinearProof
+//@   pure
+//@   assigns nothing
+//@   ensures nonnil: result ==> proof != nil
+//@   ensures ids: result ==> proof.SourceTxID == sourceTxID && proof.TargetTxID == targetTxID
+//@   ensures order: result ==> sourceTxID != 0 && sourceTxID <= targetTxID
+//@   ensures length: result ==> uint64(len(proof.Terms)) == targetTxID - sourceTxID + 1
+//@   ensures first: result ==> len(proof.Terms) > 0 && proof.Terms[0] == sourceAlh
+//@   ensures fold: result ==> spec_linfold(proof.Terms, sourceTxID, len(proof.Terms)-1) == targetAlh
+//@   ensures strong: proof != nil && proof.SourceTxID == sourceTxID && proof.TargetTxID == targetTxID
+//@   &&   sourceTxID != 0 && sourceTxID <= targetTxID
+//@   &&   uint64(len(proof.Terms)) == targetTxID - sourceTxID + 1
+//@   &&   len(proof.Terms) > 0 && proof.Terms[0] == sourceAlh
+//@   &&   spec_linfold(proof.Terms, sourceTxID, len(proof.Terms)-1) == targetAlh ==> result
+//@   loop 1 invariant range: 1 <= i && i <= len(proof.Terms)
+//@   loop 1 invariant fold: calculatedAlh == spec_linfold(proof.Terms, proof.SourceTxID, i-1)
+//@   loop 1 decreases len(proof.Terms) - i
+
+// spec_advrest: cur is the Alh of transaction txID; ips are the remaining inclusion proofs (ips[0] for txID) and terms
+// the remaining inner hashes (terms[0] for txID+1): every Alh of the chain from txID on, for which an inclusion proof
+// remains, is the leaf number txID, txID+1, ... of the tree (treeRoot, treeSize).
+func spec_advrest(ips [][][sha256.Size]byte, terms [][sha256.Size]byte, txID uint64, cur [sha256.Size]byte, treeSize uint64, treeRoot [sha256.Size]byte) bool {
+	if len(ips) == 0 {
+		return true
+	}
+	return ahtree.VerifyInclusion(ips[0], txID, treeSize, leafFor(cur), treeRoot) &&
+		spec_advrest(ips[1:], terms[1:], txID+1, advanceLinearHash(cur, txID+1, terms[0]), treeSize, treeRoot)
+}
+
+// spec_advall: all intermediate accumulated hashes of the consumed linear chain (transactions start+1 .. start+len(ips),
+// terms[0] being the Alh of start+1 and terms[m] the inner hash of start+1+m) are leaves of the target tree.
+func spec_advall(ips [][][sha256.Size]byte, terms [][sha256.Size]byte, start uint64, treeSize uint64, treeRoot [sha256.Size]byte) bool {
+	return spec_advrest(ips, terms[1:], start+1, terms[0], treeSize, treeRoot)
+}
+
+// VerifyLinearAdvanceProof (PROOFS.md step 8): for endTxID > startTxID+1 the proof carries the inner hashes of the
+// transactions startTxID+1 .. endTxID (LinearProofTerms[0] is the Alh of startTxID+1) and one inclusion proof per
+// transaction startTxID+1 .. endTxID-1; every intermediate Alh of the chain must be a leaf of the target tree
+// (treeRoot, treeSize) at the position of its transaction, and the chain must end at endAlh.
+//@ func VerifyLinearAdvanceProof
+//@   pure
+//@   assigns nothing
+//@   ensures order: result ==> startTxID <= endTxID
+//@   ensures shape: result && !(endTxID <= startTxID+1) ==> proof != nil
+//@   &&   len(proof.LinearProofTerms) == int(endTxID-startTxID) && len(proof.InclusionProofs) == int(endTxID-startTxID)-1
+//@   ensures chain: result && !(endTxID <= startTxID+1)
+//@   ==>  spec_linfold(proof.LinearProofTerms, startTxID+1, len(proof.LinearProofTerms)-1) == endAlh
+//@   ensures included: result && !(endTxID <= startTxID+1)
+//@   ==>  spec_advall(proof.InclusionProofs, proof.LinearProofTerms, startTxID, treeSize, treeRoot)
+//@   ensures strong: startTxID <= endTxID && (endTxID <= startTxID+1 || (proof != nil
+//@   &&   len(proof.LinearProofTerms) == int(endTxID-startTxID) && len(proof.InclusionProofs) == int(endTxID-startTxID)-1
+//@   &&   spec_linfold(proof.LinearProofTerms, startTxID+1, len(proof.LinearProofTerms)-1) == endAlh
+//@   &&   spec_advall(proof.InclusionProofs, proof.LinearProofTerms, startTxID, treeSize, treeRoot)))
+//@   ==>  result
+//@   loop 1 invariant range: startTxID+1 <= txID && txID <= endTxID
+//@   loop 1 invariant fold: calculatedAlh == spec_linfold(proof.LinearProofTerms, startTxID+1, int(txID-startTxID-1))
+//@   loop 1 invariant incl: spec_advrest(proof.InclusionProofs[int(txID-startTxID-1):], proof.LinearProofTerms[int(txID-startTxID):], txID, calculatedAlh, treeSize, treeRoot) == spec_advall(proof.InclusionProofs, proof.LinearProofTerms, startTxID, treeSize, treeRoot)
+//@   loop 1 decreases endTxID - txID
+
+// store.VerifyInclusion (PROOFS.md step 2) is exactly the verifier of the transaction-internal tree.
+//@ func VerifyInclusion
+//@   pure
+//@   assigns nothing
+//@   ensures same: result == htree.VerifyInclusion(proof, entryDigest, root)
+
+// innerHash: safety only. NOT panic-free: the explicit panic for Version not in {0, 1} is reachable (genuine defect,
+// see notes); the obligation safe:...innerHash:panic stays in place as an expected failure.
+//@ func (*TxHeader).innerHash
+//@   assigns nothing
+
+// VerifyDualProof: one labelled postcondition per step of docs/security/PROOFS.md (steps 3-8) in the direction
+// result ==> step, the callee verifiers being pure predicates; `strong` is the converse of the conjunction.
+//@ func VerifyDualProof
+//@   assigns nothing
+//@   ensures nonnil: result ==> proof != nil && proof.SourceTxHeader != nil && proof.TargetTxHeader != nil
+//@   ensures ids: result ==> proof.SourceTxHeader.ID == sourceTxID && proof.TargetTxHeader.ID == targetTxID
+//@   ensures order: result ==> sourceTxID != 0 && sourceTxID <= targetTxID
+//@   ensures step3_source_alh: result ==> proof.SourceTxHeader.Alh() == sourceAlh
+//@   ensures step3_target_alh: result ==> proof.TargetTxHeader.Alh() == targetAlh
+//@   ensures step4_inclusion: result && sourceTxID < proof.TargetTxHeader.BlTxID ==>
+//@        ahtree.VerifyInclusion(proof.InclusionProof, sourceTxID, proof.TargetTxHeader.BlTxID, leafFor(sourceAlh), proof.TargetTxHeader.BlRoot)
+//@   ensures step5_consistency: result && proof.SourceTxHeader.BlTxID > 0 ==>
+//@        ahtree.VerifyConsistency(proof.ConsistencyProof, proof.SourceTxHeader.BlTxID, proof.TargetTxHeader.BlTxID, proof.SourceTxHeader.BlRoot, proof.TargetTxHeader.BlRoot)
+//@   ensures step6_last_inclusion: result && proof.TargetTxHeader.BlTxID > 0 ==>
+//@        ahtree.VerifyLastInclusion(proof.LastInclusionProof, proof.TargetTxHeader.BlTxID, leafFor(proof.TargetBlTxAlh), proof.TargetTxHeader.BlRoot)
+//@   ensures step7_linear_in_tree: result && sourceTxID < proof.TargetTxHeader.BlTxID ==>
+//@        VerifyLinearProof(proof.LinearProof, proof.TargetTxHeader.BlTxID, targetTxID, proof.TargetBlTxAlh, targetAlh)
+//@   ensures step7_linear_outside: result && !(sourceTxID < proof.TargetTxHeader.BlTxID) ==>
+//@        VerifyLinearProof(proof.LinearProof, sourceTxID, targetTxID, sourceAlh, targetAlh)
+//@   ensures step8_advance_in_tree: result && sourceTxID < proof.TargetTxHeader.BlTxID ==>
+//@        VerifyLinearAdvanceProof(proof.LinearAdvanceProof, proof.SourceTxHeader.BlTxID, sourceTxID, sourceAlh, proof.TargetTxHeader.BlRoot, proof.TargetTxHeader.BlTxID)
+//@   ensures step8_advance_outside: result && !(sourceTxID < proof.TargetTxHeader.BlTxID) ==>
+//@        VerifyLinearAdvanceProof(proof.LinearAdvanceProof, proof.SourceTxHeader.BlTxID, proof.TargetTxHeader.BlTxID, proof.TargetBlTxAlh, proof.TargetTxHeader.BlRoot, proof.TargetTxHeader.BlTxID)
+//@   ensures strong: proof != nil && proof.SourceTxHeader != nil && proof.TargetTxHeader != nil
+//@        && proof.SourceTxHeader.ID == sourceTxID && proof.TargetTxHeader.ID == targetTxID
+//@        && sourceTxID != 0 && sourceTxID <= targetTxID
+//@        && proof.SourceTxHeader.Alh() == sourceAlh && proof.TargetTxHeader.Alh() == targetAlh
+//@        && (sourceTxID < proof.TargetTxHeader.BlTxID ==>
+//@            ahtree.VerifyInclusion(proof.InclusionProof, sourceTxID, proof.TargetTxHeader.BlTxID, leafFor(sourceAlh), proof.TargetTxHeader.BlRoot))
+//@        && (proof.SourceTxHeader.BlTxID > 0 ==>
+//@            ahtree.VerifyConsistency(proof.ConsistencyProof, proof.SourceTxHeader.BlTxID, proof.TargetTxHeader.BlTxID, proof.SourceTxHeader.BlRoot, proof.TargetTxHeader.BlRoot))
+//@        && (proof.TargetTxHeader.BlTxID > 0 ==>
+//@            ahtree.VerifyLastInclusion(proof.LastInclusionProof, proof.TargetTxHeader.BlTxID, leafFor(proof.TargetBlTxAlh), proof.TargetTxHeader.BlRoot))
+//@        && (sourceTxID < proof.TargetTxHeader.BlTxID ==>
+//@            VerifyLinearProof(proof.LinearProof, proof.TargetTxHeader.BlTxID, targetTxID, proof.TargetBlTxAlh, targetAlh)
+//@            && VerifyLinearAdvanceProof(proof.LinearAdvanceProof, proof.SourceTxHeader.BlTxID, sourceTxID, sourceAlh, proof.TargetTxHeader.BlRoot, proof.TargetTxHeader.BlTxID))
+//@        && (!(sourceTxID < proof.TargetTxHeader.BlTxID) ==>
+//@            VerifyLinearProof(proof.LinearProof, sourceTxID, targetTxID, sourceAlh, targetAlh)
+//@            && VerifyLinearAdvanceProof(proof.LinearAdvanceProof, proof.SourceTxHeader.BlTxID, proof.TargetTxHeader.BlTxID, proof.TargetBlTxAlh, proof.TargetTxHeader.BlRoot, proof.TargetTxHeader.BlTxID))
+//@        ==> result
+
+// VerifyDualProofV2 (err == nil means "verified"): ids, order, both Alh values, the linking BlTxID == ID-1 of both
+// headers; for sourceTxID < targetTxID additionally inclusion of the source Alh and consistency of the two trees
+// (for sourceTxID == 1 the source tree is the single leaf leafFor(sourceAlh)).
+//@ func VerifyDualProofV2
+//@   ensures nonnil: r0 == nil ==> proof != nil && proof.SourceTxHeader != nil && proof.TargetTxHeader != nil
+//@   ensures ids: r0 == nil ==> proof.SourceTxHeader.ID == sourceTxID && proof.TargetTxHeader.ID == targetTxID
+//@   ensures order: r0 == nil ==> sourceTxID != 0 && sourceTxID <= targetTxID
+//@   ensures source_alh: r0 == nil ==> proof.SourceTxHeader.Alh() == sourceAlh
+//@   ensures target_alh: r0 == nil ==> proof.TargetTxHeader.Alh() == targetAlh
+//@   ensures linking: r0 == nil ==> proof.SourceTxHeader.BlTxID == sourceTxID-1 && proof.TargetTxHeader.BlTxID == targetTxID-1
+//@   ensures inclusion: r0 == nil && sourceTxID != targetTxID ==>
+//@        ahtree.VerifyInclusion(proof.InclusionProof, sourceTxID, proof.TargetTxHeader.BlTxID, leafFor(sourceAlh), proof.TargetTxHeader.BlRoot)
+//@   ensures consistency_first: r0 == nil && sourceTxID != targetTxID && sourceTxID == 1 ==>
+//@        ahtree.VerifyConsistency(proof.ConsistencyProof, sourceTxID, proof.TargetTxHeader.BlTxID, leafFor(sourceAlh), proof.TargetTxHeader.BlRoot)
+//@   ensures consistency: r0 == nil && sourceTxID != targetTxID && sourceTxID != 1 ==>
+//@        ahtree.VerifyConsistency(proof.ConsistencyProof, proof.SourceTxHeader.BlTxID, proof.TargetTxHeader.BlTxID, proof.SourceTxHeader.BlRoot, proof.TargetTxHeader.BlRoot)
+//@   ensures strong: proof != nil && proof.SourceTxHeader != nil && proof.TargetTxHeader != nil
+//@        && proof.SourceTxHeader.ID == sourceTxID && proof.TargetTxHeader.ID == targetTxID
+//@        && sourceTxID != 0 && sourceTxID <= targetTxID
+//@        && proof.SourceTxHeader.Alh() == sourceAlh && proof.TargetTxHeader.Alh() == targetAlh
+//@        && proof.SourceTxHeader.BlTxID == sourceTxID-1 && proof.TargetTxHeader.BlTxID == targetTxID-1
+//@        && (sourceTxID != targetTxID ==>
+//@            ahtree.VerifyInclusion(proof.InclusionProof, sourceTxID, proof.TargetTxHeader.BlTxID, leafFor(sourceAlh), proof.TargetTxHeader.BlRoot))
+//@        && (sourceTxID != targetTxID && sourceTxID == 1 ==>
+//@            ahtree.VerifyConsistency(proof.ConsistencyProof, sourceTxID, proof.TargetTxHeader.BlTxID, leafFor(sourceAlh), proof.TargetTxHeader.BlRoot))
+//@        && (sourceTxID != targetTxID && sourceTxID != 1 ==>
+//@            ahtree.VerifyConsistency(proof.ConsistencyProof, proof.SourceTxHeader.BlTxID, proof.TargetTxHeader.BlTxID, proof.SourceTxHeader.BlRoot, proof.TargetTxHeader.BlRoot))
+//@        ==> r0 == nil
